@@ -39,15 +39,15 @@ Proof. unfold gen_facts. facts_tac. Qed.
 
 Corollary src_facts_never_differ : forall E, nonneg E -> facts_differ_at gen_facts ref_facts E = false.
 Proof.
-  intros E HE. destruct src_facts_tied as (A & B & C & T1 & T2 & T4 & T3).
-  destruct ref_facts_agree as (A' & B' & C' & T1' & T2' & T4' & T3').
+  intros E HE. destruct src_facts_tied as (A & B & C & T1 & T2 & T4 & T3 & T5 & T6).
+  destruct ref_facts_agree as (A' & B' & C' & T1' & T2' & T4' & T3' & T5' & T6').
   specialize (A E HE). specialize (A' E HE).
   destruct A as (a1 & a2 & a3 & a4 & a5 & a6 & a7 & a8 & a9 & a10 & a11 & a12 & a13 & a14 & a15 & a16 & a17).
   destruct A' as (b1 & b2 & b3 & b4 & b5 & b6 & b7 & b8 & b9 & b10 & b11 & b12 & b13 & b14 & b15 & b16 & b17).
   unfold facts_differ_at.
   rewrite a1, a2, a3, a4, a5, a6, a7, a8, a9, a10, a11, a12, a13, a14, a15, a16, a17.
   rewrite b1, b2, b3, b4, b5, b6, b7, b8, b9, b10, b11, b12, b13, b14, b15, b16, b17.
-  rewrite B, B', C, C', T1, T1', T2, T2', T4, T4', T3, T3'. rewrite !Z.eqb_refl. reflexivity.
+  rewrite B, B', C, C', T1, T1', T2, T2', T4, T4', T3, T3', T5, T5', T6, T6'. rewrite !Z.eqb_refl. reflexivity.
 Qed.
 
 (* ---------------------------------------------------------------- wave 3: exception safety / calling context / annealing *)
@@ -140,7 +140,7 @@ Qed.
 Corollary src_spe_lambda_finite : forall bound other,
   exists l, spe_lambda_src gen_facts bound other = Some l /\ (0 <= l)%Q /\ (l <= 1)%Q.
 Proof.
-  intros bound other. unfold spe_lambda_src. destruct src_facts_tied as (_ & _ & _ & _ & _ & _ & T3). rewrite T3.
+  intros bound other. unfold spe_lambda_src. destruct src_facts_tied as (_ & _ & _ & _ & _ & _ & T3 & _). rewrite T3.
   apply spe_lambda_finite.
 Qed.
 
